@@ -341,7 +341,7 @@ with sk_stat (s : stat) {struct s} : list ventry * list scope :=
   | SForIn ns ls es b l =>
     ([], [Scope l (fst (sk_block b) ++ rev (plain_vars ns ls)) (flat_map sk_exp es ++ snd (sk_block b))])
   | SAssign _ es _ => ([], flat_map sk_exp es)
-  | SLocal ns ls _ es _ => (rev (local_vars es (combine ns ls) RNone), flat_map sk_exp es)
+  | SLocal ns ls _ es l => (rev (local_vars es (combine ns ls) RNone (init_loc ns ls es l)), flat_map sk_exp es)
   | SLocalFunc n nl f _ => ([mkV n nl (ref_of_exp f) false], sk_exp f)
   | _ => ([], [])
   end
@@ -393,7 +393,7 @@ Section Step.
 
   Definition vstep (v v' : ventry) : Prop :=
     v' = v \/
-    (v_empty v = true /\ v_name v' = v_name v /\ v_loc v' = v_loc v /\
+    (v_empty v = true /\ v_name v' = v_name v /\ (v_loc v' = v_loc v /\ v_init v' = v_init v /\ v_tab v' = v_tab v) /\
      (v_ref v' = v_ref v \/
       exists n tl e, In (n, tl, e) A /\ beq_bytes (v_name v) n = true /\ loc_before (v_loc v) tl = true /\
                      v_ref v' = ref_of_exp e)).
@@ -433,7 +433,8 @@ with m2_stat (s : stat) {struct s} : list mark :=
       MOpen l :: id_marks nl ++ flat_map id_marks plocs ++ m2_block b ++ [MClose l]
     | _, _ => flat_map m2_exp vars ++ flat_map m2_exp es
     end
-  | SLocal _ ls _ es _ => flat_map id_marks ls ++ flat_map m2_exp es
+  | SLocal ns ls _ es l =>
+    flat_map id_marks ls ++ region_marks (init_loc ns ls es l) (flat_map m2_exp es)
   | SLocalFunc _ nl f _ =>
     match f with
     | EFunc _ _ _ plocs b l _ _ => MOpen l :: id_marks nl ++ flat_map id_marks plocs ++ m2_block b ++ [MClose l]
